@@ -173,7 +173,17 @@ func init() {
 	builders["qr-kanji"] = func() *image.Gray {
 		return gray(must(qw().Encode("漢字点茗", gozxing.BarcodeFormat_QR_CODE, 0, 0, H{gozxing.EncodeHintType_CHARACTER_SET: "Shift_JIS"})), 2, 6)
 	}
+	// twins of the read inputs: the same shape (version, size, length), another content
+	builders["qr-pure-twin"] = func() *image.Gray {
+		return gray(must(qw().Encode("WORLD HELLO 321", gozxing.BarcodeFormat_QR_CODE, 0, 0, nil)), 1, 0)
+	}
+	builders["qr-kanji-twin"] = func() *image.Gray {
+		return gray(must(qw().Encode("茗点字漢", gozxing.BarcodeFormat_QR_CODE, 0, 0, H{gozxing.EncodeHintType_CHARACTER_SET: "Shift_JIS"})), 2, 6)
+	}
 	dw := func() gozxing.Writer { return datamatrix.NewDataMatrixWriter() }
+	builders["dm-pure-twin"] = func() *image.Gray {
+		return gray(must(dw().Encode("Matrix Data 9876543210", gozxing.BarcodeFormat_DATA_MATRIX, 0, 0, nil)), 1, 0)
+	}
 	builders["dm-pure"] = func() *image.Gray {
 		return gray(must(dw().Encode("Data Matrix 0123456789", gozxing.BarcodeFormat_DATA_MATRIX, 0, 0, nil)), 1, 0)
 	}
@@ -191,6 +201,8 @@ func init() {
 		}
 	}
 	one("ean13", oned.NewEAN13Writer, gozxing.BarcodeFormat_EAN_13, "590123412345", 1)
+	one("ean13-twin", oned.NewEAN13Writer, gozxing.BarcodeFormat_EAN_13, "400638133393", 1)
+	one("code128-twin", oned.NewCode128Writer, gozxing.BarcodeFormat_CODE_128, "Twin128 0987654321", 1)
 	one("ean13-tall", oned.NewEAN13Writer, gozxing.BarcodeFormat_EAN_13, "590123412345", 15)
 	one("ean8", oned.NewEAN8Writer, gozxing.BarcodeFormat_EAN_8, "9638507", 1)
 	one("upca", oned.NewUPCAWriter, gozxing.BarcodeFormat_UPC_A, "03600029145", 1)
@@ -517,6 +529,7 @@ var needs = map[string][]string{
 	"rows-upcean": {"ean13", "ean8", "upca", "upce"}, "rows-other": {"code39", "code93", "code128", "itf", "codabar"}, "rss14-r-reset": {"rss14"},
 	"qr-r-repaired-a": {"qr-pure"}, "qr-r-repaired-b": {"qr-pure"}, "dm-r-repaired-a": {"dm-pure"}, "dm-r-repaired-b": {"dm-pure"},
 	"aztec-r-repaired-compact-a": {"aztec-c"}, "aztec-r-repaired-compact-b": {"aztec-c"}, "aztec-r-repaired-full-a": {"aztec-f"}, "aztec-r-repaired-full-b": {"aztec-f"},
+	"qr-r-pure-twin": {"qr-pure-twin"}, "qr-r-kanji-twin": {"qr-kanji-twin"}, "dm-r-pure-twin": {"dm-pure-twin"}, "ean13-r-twin": {"ean13-twin"}, "code128-r-twin": {"code128-twin"},
 	"code93-r": {"code93"}, "code128-r": {"code128"}, "itf-r": {"itf"}, "codabar-r": {"codabar"}, "rss14-r": {"rss14"},
 }
 
@@ -599,6 +612,11 @@ func all() []opLit {
 		}},
 
 		{"qr-r-pure", func() string { return read(qrcode.NewQRCodeReader(), img("qr-pure"), pure) }},
+		{"qr-r-pure-twin", func() string { return read(qrcode.NewQRCodeReader(), img("qr-pure-twin"), pure) }},
+		{"qr-r-kanji-twin", func() string { return read(qrcode.NewQRCodeReader(), img("qr-kanji-twin"), nil) }},
+		{"dm-r-pure-twin", func() string { return read(datamatrix.NewDataMatrixReader(), img("dm-pure-twin"), pure) }},
+		{"ean13-r-twin", func() string { return read(oned.NewEAN13Reader(), img("ean13-twin"), nil) }},
+		{"code128-r-twin", func() string { return read(oned.NewCode128Reader(), img("code128-twin"), nil) }},
 		{"qr-r-located", func() string { return read(qrcode.NewQRCodeReader(), img("qr-loc"), nil) }},
 		{"qr-r-v7-hard", func() string { return read(qrcode.NewQRCodeReader(), img("qr-v7"), hard) }},
 		{"qr-r-eci", func() string { return read(qrcode.NewQRCodeReader(), img("qr-eci"), nil) }},
@@ -1062,10 +1080,12 @@ func all() []opLit {
 			return sb.String()
 		}},
 
-		// a camera-sized frame (one megapixel: 128 x 128 blocks of the local binariser): what readers
-		// are given in practice, and the size class where implementations start to pool buffers
+		// a camera-sized frame (two megapixels, 201 x 158 blocks of the local binariser, width and
+		// height NOT multiples of the block size so that the last block row and column overlap their
+		// neighbours): what readers are given in practice, and the size class where implementations
+		// start to pool buffers or to split the work
 		{"lum-megapixel-frame", func() string {
-			const w, h = 1024, 1024
+			const w, h = 1601, 1257
 			yuv := make([]byte, w*h)
 			x := uint32(12345)
 			for i := range yuv {
